@@ -357,6 +357,10 @@ class PathCtx:
     def fresh_bool(self, prefix="b"):
         return z3.Bool(self.fresh_name(prefix))
 
+    def named_real(self, name):
+        """a universally quantified real of the VC with a fixed name (a replay substitutes its model value)"""
+        return z3.Real(name)
+
     # -- assumptions -----------------------------------------------------------
     def assume(self, f, label=None):
         if f is True:
